@@ -1,4 +1,5 @@
 import PmtilesModel.Gen.Facts
+import PmtilesModel.Obligations.CLI
 /-! Facts obligations for C12: the enum ↔ string ↔ MIME tables extracted from today's
     `directory.go` are the specified ones (`[]` = pattern not found = unknown). -/
 namespace Pm.Obligations.C12
@@ -10,5 +11,8 @@ theorem extensions : Facts.tblTileTypeToString = [] ∨ Facts.tblTileTypeToStrin
   ["1=>mvt", "2=>png", "3=>jpg", "4=>webp", "5=>avif"] := by decide
 theorem encodings : Facts.tblCompressionToString = [] ∨ Facts.tblCompressionToString =
   ["1=>none false", "2=>gzip true", "3=>br true", "4=>zstd true"] := by decide
+
+/-- `pmtiles serve` (main.go) opens the server on the bucket/path, cache size and public URL the user gave -/
+theorem serve_call : CLI.callOK "NewServer:serve" ["Serve.Bucket", "Serve.Path", "logger", "Serve.CacheSize", "Serve.PublicURL"] = true := by decide
 
 end Pm.Obligations.C12
